@@ -119,7 +119,9 @@ class C03(core.Check):
                 if (p.entry_price is None) != (ref.entry[i] is None) or (
                         ref.entry[i] is not None and abs(fr(p.entry_price) - ref.entry[i]) > tol * max(1, abs(ref.entry[i]))):
                     return ('entry-price', tag, p.entry_price, None if ref.entry[i] is None else float(ref.entry[i]))
-                if abs(fr(p.pnl) - ref.upnl(i)) > tol * max(1, abs(ref.upnl(i))):
+                # a small difference of two large products: the float error scales with the position's notional, not the PnL
+                notional = abs(ref.qty[i]) * max(abs(ref.price[i]), abs(ref.entry[i] or 0))
+                if abs(fr(p.pnl) - ref.upnl(i)) > tol * max(1, abs(ref.upnl(i)), notional):
                     return ('unrealised-pnl', tag, float(p.pnl), float(ref.upnl(i)))
             am = fr(e.available_margin)
             if abs(am - ref.available()) > tol * max(1, abs(ref.available())):
